@@ -21,6 +21,6 @@ PROP = {
 
 TEXT = {
     "technique": "property-based testing: round trip decode(encode(x)) == x for hexascii (C, std::string, igris::buffer flavours) and base64 (standard and url-safe), differential against an independent RFC 4648 reference encoder (pinned to the RFC section 10 vectors) and a %02X / %0*X rendering, explicit length / alphabet / padding checks, exhaustive enumeration of short inputs, ASan/UBSan on exactly-sized heap buffers, libFuzzer in thorough",
-    "level": "Generated-input exploration: millions of random byte strings of 0..64 bytes (every length mod 3, bytes >= 0x80, boundary bytes that produce the 62/63 symbols) are encoded and decoded through every codec flavour, each output compared byte for byte with the reference encoding, its length (2n, 4*ceil(n/3)), alphabet and '=' padding checked, and the decoders run on exactly what the encoders produced; all buffers handed to the C routines are exactly-sized heap blocks so one byte of over-read/over-write is a sanitizer failure. Complete enumeration of every byte string of length <= 2 over all bytes (<= 3, i.e. every base64 group, in thorough), length <= 4 over {00,7F,80,FF,'='}, every 8-bit value in every byte lane and every 16-bit value in every 16-bit lane of uintN_to_hex/hex_to_uintN; boundary-biased 32/64-bit values. A separate target encodes/decodes strings of 65..4102 bytes (thorough: to 65542) concentrated around 256, 512, 1024, 4096 (65536). Absence of defects beyond the explored inputs is not established. Strings of 128..300 KB go through the codecs on a thread with a 256 KB stack.",
+    "level": "Generated-input exploration: millions of random byte strings of 0..64 bytes (every length mod 3, bytes >= 0x80, boundary bytes that produce the 62/63 symbols) are encoded and decoded through every codec flavour, each output compared byte for byte with the reference encoding, its length (2n, 4*ceil(n/3)), alphabet and '=' padding checked, and the decoders run on exactly what the encoders produced; all buffers handed to the C routines are exactly-sized heap blocks so one byte of over-read/over-write is a sanitizer failure. Complete enumeration of every byte string of length <= 2 over all bytes (<= 3, i.e. every base64 group, in thorough), length <= 4 over {00,7F,80,FF,'='}, every 8-bit value in every byte lane and every 16-bit value in every 16-bit lane of uintN_to_hex/hex_to_uintN; boundary-biased 32/64-bit values. A separate target encodes/decodes strings of 65..4102 bytes (thorough: to 65542) concentrated around 256, 512, 1024, 4096 (65536). Absence of defects beyond the explored inputs is not established. Strings of 128..300 KB go through the codecs on a thread with a 256 KB stack. Fixed-width fields are also decoded with more hex digits following them.",
     "note": "Trusted: the harness' RFC 4648 reference encoder (self-tested against the RFC vectors in every process), host snprintf, clang ASan/UBSan. Decoders are only exercised on encoder output (the statement's domain), not on arbitrary or malformed text. igris::hexascii_decode(std::string / igris::buffer) is bound through a weak reference so that its absence is a reported finding rather than a link error.",
 }
